@@ -23,6 +23,7 @@
 //	reach <b> | unreach <b>              peer b's RIB gains (advertisement of the publisher processed) / loses
 //	                                     (dead-neighbor check) its path to the publisher
 //	sync <b> <off>                       a Sync Interest carrying sequence number latest-off reaches peer b's SvSync
+//	pairs <b> <m>                        m times: two publisher operations, their two Sync Interests read back to back by peer b, drain
 //	prestart                             the publisher restarts (real NewRouter)      => ok <seq0>
 //	deliver <b> | timeout <b> | drain <b>  the peer's pending Interest is answered from the publisher's
 //	                                     repo / times out / answered until nothing is pending
@@ -35,6 +36,7 @@ import (
 	"fmt"
 	"os"
 	"sort"
+	"strconv"
 	"strings"
 	"testing"
 	"testing/synctest"
@@ -78,6 +80,9 @@ func pfxName(id int) enc.Name {
 			return enc.Name{}
 		}
 		return mustName(appNames[id-100])
+	}
+	if id >= 1000 && id < 10000 {
+		return mustName(fmt.Sprintf("/big/%d", id)) // a site with thousands of prefixes
 	}
 	panic("harness: bad name id")
 }
@@ -126,8 +131,15 @@ func (u *universe) pfxId(n enc.Name) int {
 	if i, ok := u.pfxIdx[n.Hash()]; ok && pfxName(i).Equal(n) {
 		return i
 	}
+	if len(n) == 2 && n[0].Equal(bigComp) {
+		if id, err := strconv.Atoi(string(n[1].Val)); err == nil && id >= 1000 && id < 10000 && pfxName(id).Equal(n) {
+			return id
+		}
+	}
 	return -1
 }
+
+var bigComp = enc.NewStringComponent(enc.TypeGenericNameComponent, "big")
 
 func idxs(i int) string {
 	if i < 0 {
@@ -356,6 +368,9 @@ func genLog(g *common.Gen, r *common.Rand) {
 		case x < 3:
 			g.Op("prestart")
 			g.Stat("prestart")
+		case x < 8:
+			g.Op("pairs %d %d", b, common.Pick(r, []int{5, 20, 40}))
+			g.Stat("pairs")
 		case x < 25:
 			g.Op("ann %d", 100+r.Intn(numApp))
 			g.Stat("ann")
@@ -463,7 +478,7 @@ func parseIds(s string) []int {
 	var out []int
 	for _, f := range strings.Split(s, ".") {
 		id := common.Atoi(f)
-		if (id >= 0 && id < uni.n) || (id >= 100 && id < 100+numApp) {
+		if (id >= 0 && id < uni.n) || (id >= 100 && id < 100+numApp) || (id >= 1000 && id < 10000) {
 			out = append(out, id)
 		}
 	}
@@ -580,6 +595,26 @@ func execFib(f []string) string {
 			}
 		}
 		nd.Eng.ArmFailOnce(nil)
+		sim.SettleIdle()
+		return dumpFib()
+	}
+	if f[0] == "flood" {
+		// exit router x announces `count` prefixes at once while the forwarder does not answer: thousands of
+		// management commands pile up behind the stalled thread; none may be lost
+		if len(f) != 3 {
+			return "skip"
+		}
+		x, cnt := common.Atoi(f[1]), common.Atoi(f[2])
+		if x < 0 || x >= uni.n || cnt < 1 || cnt > 4000 {
+			return "skip"
+		}
+		ids := make([]string, cnt)
+		for i := range ids {
+			ids[i] = fmt.Sprint(1000 + i)
+		}
+		nd.Eng.Stall()
+		execFibInner([]string{"papply", f[1], "0", strings.Join(ids, "."), "-"})
+		nd.Eng.Release()
 		sim.SettleIdle()
 		return dumpFib()
 	}
@@ -856,6 +891,30 @@ func execLog(f []string) string {
 		sim.PrefixSyncInterest(b, a.Name, high)
 		collect(b)
 		return dumpPeer(b)
+	case "pairs":
+		// m times: the publisher performs two operations in quick succession and the two Sync Interests
+		// announcing them are read back to back by the peer's SvSync; then everything outstanding is delivered
+		b, ok := bOf(f[1])
+		m := common.Atoi(f[2])
+		if !ok || m < 1 || m > 200 {
+			return "skip"
+		}
+		for j := 0; j < m; j++ {
+			toggle(100 + (2*j*3)%numApp)
+			n1 := pubRouter().Latest
+			toggle(100 + ((2*j+1)*3)%numApp)
+			n2 := pubRouter().Latest
+			sim.PrefixSyncInterestNoSettle(b, a.Name, n1)
+			sim.PrefixSyncInterestNoSettle(b, a.Name, n2)
+			sim.Settle()
+			collect(b)
+			for steps := 0; len(pend[b]) > 0 && steps < 300; steps++ {
+				if !deliverOne(b) {
+					break
+				}
+			}
+		}
+		return dumpPeer(b)
 	case "prestart":
 		// the publisher crashes and boots again (takes a second): real NewRouter — new numbering from the
 		// clock, empty prefix table, new log and repo; the peers keep what they know
@@ -943,13 +1002,13 @@ func exec(op string) string {
 	}
 	if kind == "fib" {
 		switch f[0] {
-		case "ping", "pingnew", "retry", "adv", "advrace", "dead", "sweep", "papply", "fib":
+		case "ping", "pingnew", "retry", "flood", "adv", "advrace", "dead", "sweep", "papply", "fib":
 			return execFib(f)
 		}
 		return "skip"
 	}
 	switch f[0] {
-	case "ann", "wd", "burst", "sync", "prestart", "reach", "unreach", "deliver", "timeout", "drain":
+	case "ann", "wd", "burst", "sync", "pairs", "prestart", "reach", "unreach", "deliver", "timeout", "drain":
 		return execLog(f)
 	}
 	return "skip"
